@@ -98,6 +98,8 @@ def run_families(chk, prop, plans, tier, max_hist=None):
                 seen.add(k)
                 uniq.append(h)
         cap = pl.get("cap", max_hist)
+        if cap is None:
+            cap = 8000          # no family is replayed without a bound (about 20 behaviours per second on an idle 16-core machine)
         if cap and len(uniq) > cap:
             # prefer the longest behaviours (they contain the shorter ones as prefixes), then a seeded sample
             score = pl.get("prefer", lambda h: 0)
